@@ -1300,6 +1300,7 @@ HIST_STATES = {
 }
 HIST_T0 = 1000          # logical clock (seconds) for files written by earlier steps of a history
 HIST_FRESH = 10 ** 6    # any mtime above this was produced by the real clock
+HIST_SUBTICK = 0.125    # sub-second clock step (binary fraction: exact as float and in ns); <= 7 writes stay in one second
 
 
 def _age_files(d: str, k: int) -> None:
@@ -1327,9 +1328,14 @@ def check_hist(case, d):
     ops = [tuple(o) for o in case["ops"]]
     shape = case.get("shape", "ns")
     bounds = CFGS["t4-default"][2]
+    tick = case.get("tick")          # None: one write per logical second; a fraction: all writes inside ONE second
+    if tick:
+        tags.add("sub-second-clock")
     for i, (ag, sx) in enumerate(ops):
         spec = HIST_STATES[sx]
         kind, cls = step_class(ops, i)   # content failures are classified by kind only, discovery failures by cls
+        if tick:
+            cls += ":same-second"
         tags.add(cls)
         where = "history %s step %d (%s)" % (J(ops[:i + 1]), i + 1, cls)
         ctx = mk_ctx("t4-default", d, ag, 3)
@@ -1345,6 +1351,12 @@ def check_hist(case, d):
         except Exception as e:
             out.append(("history:write-fails:" + kind, "%s: write_snapshot / reading its body back raised %r" % (where, e)))
             break
+        if tick:
+            # a clock with sub-second resolution: write i happens at HIST_T0 + (i+1)*tick, all inside second HIST_T0;
+            # the mtimes are strictly increasing, so which body is the latest stays well defined
+            for n in (p, p + ".meta"):
+                if os.path.isfile(n):
+                    os.utime(n, (HIST_T0 + (i + 1) * tick, HIST_T0 + (i + 1) * tick))
         gel_w = doc.get("gel") if isinstance(doc, dict) else None
         bad = []
         if not isinstance(gel_w, dict) or doc.get("version_etag") != spec["version"] or ref_check_written(spec["graph"], gel_w, bounds):
@@ -1371,7 +1383,8 @@ def check_hist(case, d):
                 bad.append(("history:load-returns-non-dict", "%s: load_latest_snapshot returned %r" % (where, info)))
                 break
             lp = info.get("path")
-            listing = sorted((n, int(os.path.getmtime(os.path.join(d, n)) > HIST_FRESH)) for n in os.listdir(d) if n.endswith(".json"))
+            listing = sorted((n, (os.path.getmtime(os.path.join(d, n)) if tick else int(os.path.getmtime(os.path.join(d, n)) > HIST_FRESH)))
+                             for n in os.listdir(d) if n.endswith(".json"))
             if not lp or os.path.abspath(lp) != os.path.abspath(p):
                 bad.append(("history:latest-not-picked:" + cls,
                             "%s: the snapshot written last is %r but the loader read %r; bodies (name, replaced by this write) = %s, listing order %s" % (
@@ -1432,6 +1445,12 @@ def enumerate_hist(thorough: bool):
         # the state shape alternates deterministically with the history so both are exercised
         shp = "ns" if (sum(sym.index(o) for o in ops) % 2 == 0) else "dict"
         cases.append({"kind": "hist", "ops": [list(o) for o in ops], "shape": shp})
+    # the same histories under a sub-second clock: every write of the history falls into ONE whole second
+    # (strictly increasing fractional mtimes, exactly representable) - only where >=2 agents share the directory,
+    # a single body has no competitor
+    for c in list(cases):
+        if len({a for a, _ in c["ops"]}) > 1:
+            cases.append(dict(c, tick=HIST_SUBTICK))
     return cases
 
 
@@ -1709,6 +1728,176 @@ def auto_marker_violations(d):
     return out
 
 
+# ----------------------------------------------------------------------------- PR34 full -> delta chains
+# "for all write-load-write chains": the PR34 writer (write_snapshot_auto) stores the second snapshot of a chain
+# as a DELTA against the first.  The state of every generation is a real write_snapshot body; the alphabet adds
+# states whose sub-trees are EMPTY (no edges, no nodes, no store entry) so that every transition
+# {populated, empty} -> {populated, empty} of every sub-tree occurs in some ordered pair.
+DELTA_STATES = dict(HIST_STATES, **{
+    "e0": {"version": "8", "store": [], "graph": {"nodes": {}, "edges": {}}},
+    "e1": {"version": "9", "store": [["node", "a", "weight", 0.5]],
+           "graph": {"nodes": {"x": {"id": "x", "label": "é", "attrs": {}}}, "edges": {}}},
+    "e2": {"version": "10", "store": [],
+           "graph": {"nodes": {}, "edges": {"a→b": {"id": "a→b", "src": "a", "dst": "b", "rel": "coact", "weight": 0.5,
+                                                      "attrs": {}, "updated_at": None}}}},
+})
+
+
+def check_delta(case, d):
+    """returns (violations, outcome tags, transitions, intercepted listdir calls)"""
+    out, tags, steps, calls = [], set(), 0, 0
+    clean_dir(d)
+    shape = case.get("shape", "ns")
+    bounds = CFGS["t4-default"][2]
+    ctx = mk_ctx("t4-default", d, "A", 3)
+    gens = []
+    for sx in case["chain"]:
+        spec = DELTA_STATES[sx]
+        s_in = mk_state(shape, build_w(spec["store"]), spec["version"], json.loads(json.dumps(spec["graph"])))
+        try:
+            p = snap.write_snapshot(ctx, s_in, spec["version"], applied=1, deltas=None)
+            steps += 1
+            with open(p, "rb") as f:
+                b = f.read()
+            doc = json.loads(b.decode("utf-8"))
+            os.unlink(p)
+            if os.path.isfile(p + ".meta"):
+                os.unlink(p + ".meta")
+        except Exception as e:
+            return [("delta:body-writer-fails:" + type(e).__name__, "write_snapshot of state %s raised %r" % (sx, e))], tags, steps, calls
+        gel_w = doc.get("gel") if isinstance(doc, dict) else None
+        if not isinstance(gel_w, dict) or ref_check_written(spec["graph"], gel_w, bounds):
+            return [("delta:body-mismatch", "write_snapshot body of state %s holds gel %s" % (sx, J(gel_w)[:200]))], tags, steps, calls
+        gens.append((sx, spec, b, doc, gel_w))
+    prev = None
+    last_path = None
+    for i, (sx, spec, b, doc, gel_w) in enumerate(gens):
+        where = "PR34 chain %s generation %d" % (J(case["chain"]), i + 1)
+        try:
+            body, was_delta = snap.write_snapshot_auto(d, etag_from=(None if i == 0 else gens[0][1]["version"]), etag_to=spec["version"],
+                                                      payload=json.loads(b.decode("utf-8")), delta_mode=(i > 0))
+            steps += 1
+            if not (isinstance(body, str) and os.path.isfile(body)):
+                raise FileNotFoundError("write_snapshot_auto returned %r" % (body,))
+        except Exception as e:
+            return [("delta:writer-fails:" + type(e).__name__, "%s: write_snapshot_auto raised / wrote nothing: %r" % (where, e))], tags, steps, calls
+        tags.add("gen%d-%s" % (i + 1, "delta" if was_delta else "full"))
+        out += check_marker(body, None, where, body_must=False)
+        for n in (body, body + ".meta"):
+            if os.path.isfile(n):
+                os.utime(n, (HIST_T0 + i, HIST_T0 + i))
+        last_path = body
+        if i == 0:
+            continue
+        for sub in ("store", "gel/nodes", "gel/edges"):
+            a0, a1 = _at(gens[0][3], sub.split("/")), _at(doc, sub.split("/"))
+            if a0 and not a1:
+                tags.add("emptied:" + sub)
+        for order in ("asc", "desc"):
+            proxy = _OsProxy(os, order)
+            real_os = snap.os
+            snap.os = proxy
+            sN = mk_state(shape, _Store(), None, None)
+            try:
+                info = snap.load_latest_snapshot(ctx, sN)
+                steps += 1
+            except Exception as e:
+                out.append(("delta:load-raises:" + type(e).__name__, "%s: load_latest_snapshot raised %r" % (where, e)))
+                break
+            finally:
+                snap.os = real_os
+                calls += proxy.calls
+            lp = info.get("path") if isinstance(info, dict) else None
+            if not lp or os.path.abspath(lp) != os.path.abspath(last_path):
+                out.append(("delta:latest-not-picked", "%s: the snapshot written last is %r but the loader read %r (listing order %s)" % (
+                    where, os.path.basename(last_path), os.path.basename(lp) if lp else None, order)))
+                break
+            miss = []
+            if not info.get("loaded"):
+                miss.append("loaded=%r" % (info.get("loaded"),))
+            if sget(sN, "version_etag") != spec["version"]:
+                miss.append("version %r != written %r" % (sget(sN, "version_etag"), spec["version"]))
+            st_l = sget(sN, "store")
+            if not deq(dict(getattr(st_l, "w", {}) or {}), dict(build_w(spec["store"]).w)):
+                miss.append("store %s != written %s" % (J(w_as_list(getattr(st_l, "w", {}) or {})), J(spec["store"])))
+            miss += [w for _, w in cmp_loaded(sget(sN, "graph"), gel_w, "graph")]
+            if miss:
+                out.append(("delta:latest-not-restored:" + ("delta" if was_delta else "full"),
+                            "%s (%s body %s on baseline %s): %s" % (where, "delta" if was_delta else "full", os.path.basename(body),
+                                                                    gens[0][0], "; ".join(miss))))
+                break
+            if order == "asc":
+                # snapshotting the loaded state again reproduces the body the generation was written from
+                try:
+                    p2 = snap.write_snapshot(ctx, sN, sget(sN, "version_etag"), applied=1, deltas=None)
+                    steps += 1
+                    with open(p2, "rb") as f:
+                        b2 = f.read()
+                    for n in (p2, p2 + ".meta"):
+                        if os.path.isfile(n):
+                            os.unlink(n)
+                    # the PR34 container stores canonical (key-sorted) JSON, so the insertion order of object keys
+                    # cannot survive it: the two bodies are compared as canonical JSON, not as raw bytes
+                    try:
+                        same = (json.dumps(json.loads(b2.decode("utf-8")), sort_keys=True, ensure_ascii=False) ==
+                                json.dumps(json.loads(b.decode("utf-8")), sort_keys=True, ensure_ascii=False))
+                    except Exception:
+                        same = False
+                    if not same:
+                        try:
+                            dp = diffpath(json.loads(b.decode("utf-8")), json.loads(b2.decode("utf-8")))
+                        except Exception:
+                            dp = ("unparseable",)
+                        out.append(("delta:rewrite-differs", "%s: re-snapshot of the loaded state differs from the written body at %s" % (
+                            where, "/".join(map(str, dp or ("bytes",))))))
+                        break
+                except Exception as e:
+                    out.append(("delta:rewrite-raises:" + type(e).__name__, "%s: write_snapshot of the loaded state raised %r" % (where, e)))
+                    break
+        if out:
+            break
+    return dedupe(out), tags, steps, calls
+
+
+def _delta_worker(chunk, st: Stats, scratch_root):
+    d = os.path.join(scratch_root, "delta-w%d" % os.getpid())
+    os.makedirs(d, exist_ok=True)
+    import logging
+    logging.disable(logging.CRITICAL)
+    import contextlib, io
+    for case in chunk:
+        with contextlib.redirect_stderr(io.StringIO()):
+            res, tags, steps, calls = check_delta(case, d)
+        st.add("transitions", steps)
+        st.add("validated")
+        st.add("delta_cases")
+        st.add("listdir_intercepted", calls)
+        st.distinct("states", case)
+        st.distinct("outcomes", ("delta",) + tuple(sorted(tags)) + tuple(sorted("FAIL:" + s for s, _ in res)))
+        if any(t.startswith("emptied:") for t in tags):
+            st.add("nontrivial")
+        for sig, what in res:
+            st.violation(sig, what, case)
+    if chunk:
+        st.sample(chunk[len(chunk) // 2])
+    shutil.rmtree(d, ignore_errors=True)
+
+
+def delta_bound(thorough: bool) -> int:
+    return 3 if thorough else 2
+
+
+def enumerate_delta(thorough: bool):
+    """every chain of 2 (thorough: also 3) generations with pairwise distinct versions over DELTA_STATES: generation 1 is
+    written full, every later one as a delta against generation 1"""
+    cases = []
+    for L in range(2, delta_bound(thorough) + 1):
+        for chain in itertools.permutations(sorted(DELTA_STATES), L):
+            shp = "ns" if (len(cases) % 2 == 0) else "dict"
+            cases.append({"kind": "delta", "chain": list(chain), "shape": shp})
+    return cases
+
+
 # ----------------------------------------------------------------------------- entry points
 def run(run: Run) -> None:
     if not hasattr(snap, "os"):
@@ -1733,6 +1922,10 @@ def run(run: Run) -> None:
     run.notes["num_cases_enumerated"] = len(ncases)
     run.notes["num_bound"] = {"suffixes": NUM_SUFFIXES, "max_bodies_per_directory": num_bound(run.thorough),
                               "mtimes": NUM_MTIMES, "neighbours": NUM_NEIGHBOURS}
+    xcases = enumerate_delta(run.thorough)
+    run.notes["delta_cases_enumerated"] = len(xcases)
+    run.notes["delta_bound"] = {"states": sorted(DELTA_STATES), "generations_per_chain": delta_bound(run.thorough)}
+    run.notes["hist_subsecond_tick"] = HIST_SUBTICK
     run.notes["version_alphabet"] = ["41", "0"] + version_alphabet(run.thorough)
     run.rule = (
         "rt: product families F1 one edge (src,dst in {a,b,'é→x',''}^2 x rel x 9 weights x 4 edge-container styles x 7 bounds cfgs"
@@ -1763,16 +1956,26 @@ def run(run: Run) -> None:
         "neighbours %s (a newer state_*.json body; a complete temp file and a bare sidecar named with a higher number), both listdir "
         "orders; picker, loader and get_latest_snapshot_info must return a body of the highest numeric suffix (equal values in "
         "different paddings tie: either), the loaded state must be that generation and re-snapshot to the same bytes; non-trivial = "
-        ">=2 numbered bodies or a neighbour."
+        ">=2 numbered bodies or a neighbour. "
+        "hist-subsecond: every hist history that involves >=2 agents is run a second time under a sub-second clock (write i stamped "
+        "HIST_T0+(i+1)*%s s: strictly increasing mtimes inside ONE whole second). "
+        "delta: every chain of 2..%d generations with pairwise distinct versions over the states %s (populated and EMPTY store / "
+        "gel.nodes / gel.edges sub-trees, so each sub-tree goes populated->empty, empty->populated, changes and stays in some chain); "
+        "generation 1 is written by write_snapshot_auto as a full PR34 snapshot, every later one with delta_mode=True against "
+        "generation 1, payload = the real write_snapshot body of that state; after every later generation the latest snapshot is "
+        "loaded (both listdir orders) and must restore that generation's version / store / graph, and re-snapshot to its body "
+        "(compared as canonical JSON); non-trivial = a sub-tree of the body became empty."
         % (" x 3 attrs x 3 updated_at under 2 of the cfgs" if run.thorough else "", len(MEMBERS), h_len, h_agents, h_states,
            MIRRORS, live_bound(run.thorough), GEL_OPS, len(LIVE_CFGS), [v for v, _ in ENV_ALPHABET["SOURCE_DATE_EPOCH"]],
            version_alphabet(run.thorough) if not run.thorough else VERSIONS_B + [v[:12] for v in VERSIONS_B_DEEP],
-           num_bound(run.thorough), NUM_SUFFIXES, NUM_MTIMES, NUM_NEIGHBOURS))
+           num_bound(run.thorough), NUM_SUFFIXES, NUM_MTIMES, NUM_NEIGHBOURS,
+           HIST_SUBTICK, delta_bound(run.thorough), sorted(DELTA_STATES)))
     run.pmap(_rt_worker, cases + lcases, extra=(run.scratch,))
     run.pmap(_env_worker, ecases, extra=(run.scratch,))
     run.pmap(_disc_worker, dcases, extra=(run.scratch,))
     run.pmap(_hist_worker, hcases, extra=(run.scratch,))
     run.pmap(_num_worker, ncases, extra=(run.scratch,))
+    run.pmap(_delta_worker, xcases, extra=(run.scratch,))
     if run.n.get("listdir_intercepted", 0) == 0:
         raise HarnessError("seam missing: snapshot discovery no longer lists the directory through snapshot.os.listdir/scandir")
     d = os.path.join(run.scratch, "auto")
@@ -1790,8 +1993,15 @@ def run(run: Run) -> None:
     run.assume("rounding: any six-decimal value within 0.5e-6 of the clamped input is accepted (ties may go either way); NaN may map to any in-bounds value")
     run.assume("zstandard not installed: *.json.zst appears only as an unreadable neighbour file")
     run.assume("hist: time passes between two writes of a history (harness-owned clock: before each write every file stamped by the "
-               "real clock is moved to the next logical second, preserving the age order of the files already present); two writes "
-               "inside one timestamp tick are not enumerated, and the loading ctx is always the agent that wrote last")
+               "real clock is moved to the next logical second, preserving the age order of the files already present); in the "
+               "sub-second variant every written body is stamped HIST_T0+(i+1)*tick instead, i.e. a filesystem with sub-second mtime "
+               "resolution is assumed (as on the scratch tmpfs); two writes with EQUAL mtimes are not enumerated, and the loading ctx "
+               "is always the agent that wrote last")
+    run.assume("delta: whether write_snapshot_auto(delta_mode=True) really emits a delta or falls back to a full body is not judged "
+               "(only recorded in the outcome); generation i is stamped logical second HIST_T0+i so the last written file is the "
+               "latest; one agent / turn / applied for the whole chain; deltas always refer to generation 1 (delta-of-delta is not a "
+               "documented mode); the PR34 container canonicalises object key order, so the re-snapshot of a state loaded from it is "
+               "compared with the written body as key-sorted JSON (value-exact), not as raw bytes")
     run.assume("versions are strings (write_snapshot's declared type); a non-string version (int 0, None) is not enumerated: the loader "
                "documents that it restores str(version), so such a value cannot round-trip byte for byte by design.  F7 always writes "
                "a store entry or a graph edge next to the version (whether a body holding neither counts as 'loaded' is not judged); "
@@ -1825,6 +2035,8 @@ def replay(case):
             return check_hist(case, d)[0]
         if case.get("kind") == "num":
             return check_num(case, d)[0]
+        if case.get("kind") == "delta":
+            return check_delta(case, d)[0]
         if case.get("kind") == "auto-marker":
             return auto_marker_violations(d)
         if case.get("kind") == "env":
